@@ -126,6 +126,16 @@ def check_point(impl, h, cfg, cname, hist, K, vb: VB) -> int:
             a = M.run_rs(h, cfg, full, lcd=True)
             b = M.run_rs(h, cfg, rest, lcd=True)
         n += 1
+        if impl == "python" and cont == conts[0]:
+            # loading into a machine that has already run something else must give the same machine as loading into a fresh one
+            c = M.run_py(cfg, tuple(hist) + (("save", path), ("load_dirty", path)) + tuple(cont), lcd=True)
+            for i in range(len(hist) + 1, min(len(b), len(c))):
+                dd = first_diff(view(b[i], b[len(hist) + 1]["irq_total"]), view(c[i], c[len(hist) + 1]["irq_total"]))
+                if dd:
+                    vb.add(f"C16/python/load-into-used-machine-differs/{dd[0].split(':')[0]}", f"python {cname}: snapshot after {hist} loaded into a machine that had "
+                           f"already run another program vs into a fresh one: {dd[1]}", {"impl": impl, "config": cname, "history": [list(e) for e in hist],
+                                                                                      "cont": [list(e) for e in cont]})
+                    break
         if len(b) != len(a) + 2:
             vb.add(f"C16/{impl}/harness-shape", f"unexpected observation count {len(a)} vs {len(b)}",
                    {"impl": impl, "config": cname, "history": [list(e) for e in hist], "cont": [list(e) for e in cont]})
